@@ -232,11 +232,9 @@ def run(repo, rep):
     rep.floor('C17.c', n, 16)
 
     # ---------------------------------------------------------------- C17.d
-    gi = m.funcs.get('general_identifier')
-    txt = src(gi.node) if gi else ''
-    rep.check(gi is not None and '__module__' in txt and '__qualname__' in txt, 'C17.d', 'general_identifier:qualified-name',
-              gi.where if gi else m.relpath, 'callable named by module.qualname (details under C08.d)',
-              'general_identifier no longer builds the name from __module__ and __qualname__', nontrivial=True)
+    # the callable is named by its importable module.qualname: decided by interpreting general_identifier on model callables
+    # (identmodel, recorded above under C17.a)
+    rep.count(sum(1 for i in rep.instances if i.rule == 'C17.a' and 'ident' in i.construct))
 
 
 def _sf(pr):
